@@ -157,6 +157,21 @@ class CFG:
                 return False
             x = idom[x]
 
+    def postdominates(self, a, b):
+        """every path from block b to an exit passes through block a"""
+        ip = self.pdom()
+        x = b
+        guard = 0
+        while x in ip and guard < 100000:
+            guard += 1
+            if x == a:
+                return True
+            nx = ip[x]
+            if nx == x:
+                return False
+            x = nx
+        return x == a
+
     def instr_dominates(self, i1, i2):
         if i1.bb == i2.bb:
             return i1.idx <= i2.idx
